@@ -688,7 +688,11 @@ class TlsCertificateStatusRequestResponderIdList(VectorParsable):
         )
 
 
+@attr.s(init=False)
 class TlsExtensionCertificateStatusRequestClient(TlsExtensionParsed):
+    responder_id_list = attr.ib()
+    request_extensions = attr.ib()
+
     def __init__(self, responder_id_list=(), extensions=()):
         super(TlsExtensionCertificateStatusRequestClient, self).__init__()
 
